@@ -124,3 +124,28 @@ def parse_case(text, want=None):
 
 def parse_in_term(text, want=None):
     return "(%s, %s)" % (coq_str(text), pyval.r_want(want))
+
+
+def regex_witnesses():
+    """UNTRUSTED search (Base/RegexDiff.v) for strings accepted by exactly one of (regenerated regex, reference regex),
+    for the nine line kinds and the metadata fields.  Returns a list of Python strings (possibly empty)."""
+    import re as _re
+    import driver
+    body = ("From CP Require Import Base.Prelude Base.Str Base.Regex Base.Cfg Base.RegexDiff Spec.RefRegex Gen.Src.\n"
+            "Eval vm_compute in map (fun k => diff_witness (tbl cfg) (re_of_kind cfg k) (ref_of_kind k)) "
+            "[KNote; KSP; KTev; KBpm; KTs; KAnchor; KText; KSection; KLyric].\n"
+            "Eval vm_compute in map (fun f => diff_witness (tbl cfg) (mf_re f) (ref_meta (mf_pascal f) (mf_kind f))) (meta_fields cfg).\n")
+    try:
+        rc, out = driver.run_coq_snippet("rdiff", body, timeout=600)
+    except Exception:  # noqa: BLE001
+        return []
+    if rc != 0:
+        return []
+    ws = []
+    for m in _re.finditer(r"Some\s*\[([^\]]*)\]", out):
+        cps = [int(x) for x in _re.findall(r"(\d+)%N", m.group(1))]
+        try:
+            ws.append("".join(chr(c) for c in cps))
+        except ValueError:
+            pass
+    return ws
